@@ -676,6 +676,21 @@ def _call_forms(par, p0, E, p1):
             pos = [float(a.position[c][1]) for c in "xyz"]; wpos = [ref.position.x, ref.position.y, ref.position.z]
             if got != want or not np.array_equal(ak.to_numpy(a.error[1]), E) or any(abs(g - w) > 1e-12 * (1 + abs(w)) for g, w in zip(pos, wpos)):
                 report(f"C13:constructor-forms-differ:helix_awk:{cname}:{pname}-pivot", f"helix_awk {cname} with a {pname} pivot: track {got} position {pos}, object {want} position {wpos}", {"par": par, "pivot": p0})
+        # the same forms WITHOUT an error matrix (an explicit None in the error slot, or no error at all): same track, same pivot, same
+        # position as the object, and no error field appears (round 8: the third positional slot lost when the second holds None)
+        makers0 = {"positional(helix,None,pivot)": lambda: p3.helix_awk(raw, None, pv),
+                   "positional(helix)+pivot=": lambda: p3.helix_awk(raw, pivot=pv),
+                   "positional(helix)+error=None+pivot=": lambda: p3.helix_awk(raw, error=None, pivot=pv),
+                   "positional(helix,None)+pivot=": lambda: p3.helix_awk(raw, None, pivot=pv),
+                   "helix=+pivot=": lambda: p3.helix_awk(helix=raw, pivot=pv),
+                   "columns+pivot=": lambda: p3.helix_awk(**cols, pivot=pv)}
+        for cname, mk in makers0.items():
+            bump(f"callform:awk:noerr:{cname}:{pname}")
+            a = mk(); n_eval += 1
+            got = [float(a[f][1]) for f in ("dr", "phi0", "kappa", "dz", "tanl")] + [float(a.pivot[c][1]) for c in "xyz"]
+            pos = [float(a.position[c][1]) for c in "xyz"]; wpos = [ref.position.x, ref.position.y, ref.position.z]
+            if got != want or "error" in a.fields or any(abs(g - w) > 1e-12 * (1 + abs(w)) for g, w in zip(pos, wpos)):
+                report(f"C13:constructor-forms-differ:helix_awk:noerr:{cname}:{pname}-pivot", f"helix_awk {cname} (no error matrix) with a {pname} pivot: track {got} position {pos} fields {a.fields}, object {want} position {wpos}", {"par": par, "pivot": p0})
     # default pivot
     for cname, a in (("positional", p3.helix_awk(raw)), ("positional+error", p3.helix_awk(raw, err)), ("columns", p3.helix_awk(**cols))):
         n_eval += 1
